@@ -179,9 +179,25 @@ func NewWorld(sess []SessDef, logins []LoginDef) *World {
 	for si, sd := range sess {
 		var evs []*aucoalesce.Event
 		for ei, typ := range sd.Events {
+			// The tracker must not depend on kernel stamps or on the record's free-form data: odd sessions
+			// carry DEcreasing timestamps/serials (late records, a clock stepped back), and every LOGIN
+			// record names another tracked session as the one its process came from (old-ses, as the kernel
+			// prints it for su -l / sudo -i under pam_loginuid).
+			stamp := si*100 + ei
+			if si%2 == 1 {
+				stamp = si*100 + 90 - ei
+			}
+			var data map[string]string
+			if typ == auparse.AUDIT_LOGIN {
+				data = map[string]string{"old-ses": "4294967295", "old-auid": "4294967295", "auid": "1000", "tty": "(none)"}
+				if len(sess) > 1 {
+					data["old-ses"] = sess[(si+len(sess)-1)%len(sess)].ID
+				}
+			}
 			e := &aucoalesce.Event{
-				Timestamp: base.Add(time.Duration(si*100+ei) * time.Second),
-				Sequence:  uint32(si*100 + ei),
+				Timestamp: base.Add(time.Duration(stamp) * time.Second),
+				Sequence:  uint32(stamp),
+				Data:      data,
 				Type:      typ,
 				Session:   sd.ID,
 				Result:    "success",
